@@ -60,8 +60,76 @@ Proof. unfold counts. apply count_mono; lia. Qed.
 Lemma counts_nil : counts [] = (0, 0).
 Proof. reflexivity. Qed.
 
-Lemma counts_app_w a b : whole a -> whole b -> snd (counts (a ++ b)) = snd (counts a) + snd (counts b).
-Proof. intros Ha Hb. rewrite (counts_app_proof a b Ha Hb). reflexivity. Qed.
+(* complete records as far as the framing goes: the handler may write any "byte" values and any stream type *)
+Definition rcd_fr (r : rcd) : Prop := len (rbody r) < 65536 /\ len (rpad r) < 256.
+Definition wholeF (l : bytes) : Prop := exists rs, Forall rcd_fr rs /\ l = enc_rcds rs.
+
+Lemma count_step_fr f r rest e m : rcd_fr r ->
+  count_records (S f) (enc_rcd r ++ rest) e m =
+  count_records f rest (e + fst (tally1 r)) (m + snd (tally1 r)).
+Proof.
+  intros (Hb & Hp).
+  assert (Hdrop : drop (8 + len (rbody r) + len (rpad r)) (enc_rcd r ++ rest) = rest).
+  { rewrite <- enc_rcd_len. apply drop_len_app. }
+  assert (Hlen : len (enc_rcd r ++ rest) = 8 + len (rbody r) + len (rpad r) + len rest).
+  { rewrite len_app, enc_rcd_len. reflexivity. }
+  cbn [count_records]. rewrite Hlen.
+  destruct (N.ltb_spec (8 + len (rbody r) + len (rpad r) + len rest) 8) as [H|_]; [lia|].
+  assert (E4 : nthN (enc_rcd r ++ rest) 4 = len (rbody r) / 256 mod 256) by (rewrite enc_rcd_shape; reflexivity).
+  assert (E5 : nthN (enc_rcd r ++ rest) 5 = len (rbody r) mod 256) by (rewrite enc_rcd_shape; reflexivity).
+  assert (E6 : nthN (enc_rcd r ++ rest) 6 = len (rpad r)) by (rewrite enc_rcd_shape; reflexivity).
+  assert (E1 : nthN (enc_rcd r ++ rest) 1 = rt r) by (rewrite enc_rcd_shape; reflexivity).
+  rewrite E4, E5, E6, E1, (be16_to_be16 _ Hb).
+  destruct (N.ltb_spec (8 + len (rbody r) + len (rpad r) + len rest) (8 + len (rbody r) + len (rpad r))) as [H|_]; [lia|].
+  rewrite Hdrop. unfold tally1. cbn [fst snd].
+  f_equal.
+  - destruct (rt r =? RT_EndRequest); [reflexivity|apply eq_sym, N.add_0_r].
+  - destruct ((rt r =? RT_GetValuesResult) || (rt r =? RT_Unknown)); [reflexivity|apply eq_sym, N.add_0_r].
+Qed.
+
+Lemma count_enc_fr : forall rs fuel e m, Forall rcd_fr rs -> (length rs <= fuel)%nat ->
+  count_records fuel (enc_rcds rs) e m = (e + fst (tally rs), m + snd (tally rs)).
+Proof.
+  induction rs as [|r t IH]; intros fuel e m Hok Hf.
+  - cbn [enc_rcds flat_map tally fst snd]. rewrite !N.add_0_r. destruct fuel; reflexivity.
+  - inversion Hok as [|? ? Hr Ht]; subst. destruct fuel as [|f]; [cbn [length] in Hf; lia|].
+    cbn [enc_rcds flat_map]. change (flat_map enc_rcd t) with (enc_rcds t).
+    rewrite (count_step_fr f r (enc_rcds t) e m Hr). rewrite IH; [|exact Ht|cbn [length] in Hf; lia].
+    cbn [tally]. unfold cadd. cbn [fst snd]. f_equal; lia.
+Qed.
+
+Lemma counts_enc_fr rs : Forall rcd_fr rs -> counts (enc_rcds rs) = tally rs.
+Proof.
+  intros H. unfold counts. rewrite (count_enc_fr rs _ 0 0 H (enc_rcds_length rs)).
+  destruct (tally rs) as [a b]. cbn [fst snd]. f_equal; lia.
+Qed.
+
+Lemma counts_app_F a b : wholeF a -> wholeF b -> counts (a ++ b) = cadd (counts a) (counts b).
+Proof.
+  intros (ra & Ha & ->) (rb & Hb & ->).
+  rewrite <- enc_rcds_app, !counts_enc_fr; [apply tally_app|exact Hb|exact Ha|].
+  apply Forall_app. split; assumption.
+Qed.
+
+Lemma rcd_ok_fr r : rcd_ok r -> rcd_fr r.
+Proof. intros (_ & _ & Hb & Hp & _). split; assumption. Qed.
+
+Lemma whole_F l : whole l -> wholeF l.
+Proof.
+  intros (rs & H & ->). exists rs. split; [|reflexivity]. rewrite Forall_forall in *. intros r Hr. apply rcd_ok_fr, H, Hr.
+Qed.
+
+Lemma wholeF_nil : wholeF [].
+Proof. exists []. split; [constructor|reflexivity]. Qed.
+
+Lemma wholeF_app a b : wholeF a -> wholeF b -> wholeF (a ++ b).
+Proof.
+  intros (ra & Ha & ->) (rb & Hb & ->). exists (ra ++ rb). split; [apply Forall_app; split; assumption|].
+  symmetry. apply enc_rcds_app.
+Qed.
+
+Lemma counts_app_w a b : wholeF a -> wholeF b -> snd (counts (a ++ b)) = snd (counts a) + snd (counts b).
+Proof. intros Ha Hb. rewrite (counts_app_F a b Ha Hb). reflexivity. Qed.
 
 (* the three kinds of reply, counted *)
 Lemma unk_counts t id : t < 256 -> id < 65536 -> counts (unk_record t id) = (0, 1).
@@ -349,7 +417,7 @@ Lemma w_rel_trans a1 a2 a3 : w_rel a1 a2 -> w_rel a2 a3 -> w_rel a1 a3.
 Proof.
   intros H1 H2 Hb. destruct (H1 Hb) as (Hb2 & o1 & E1 & W1 & L1). destruct (H2 Hb2) as (Hb3 & o2 & E2 & W2 & L2).
   split; [exact Hb3|]. exists (o1 ++ o2). split; [rewrite E2, E1, app_assoc; reflexivity|].
-  split; [apply whole_app; assumption|]. intros u. rewrite L1, L2, padd_padd, (counts_app_w o1 o2 W1 W2). reflexivity.
+  split; [apply whole_app; assumption|]. intros u. rewrite L1, L2, padd_padd, (counts_app_w o1 o2 (whole_F _ W1) (whole_F _ W2)). reflexivity.
 Qed.
 
 Lemma w_post_trans a1 a2 fl : w_rel a1 a2 -> w_post a2 fl -> w_post a1 fl.
@@ -1019,7 +1087,7 @@ Proof.
     + destruct (IH s0 (b :: r0') (out ++ o0) r s' o (proj1 P1) (suffix_ok _ _ P3 Hok)
                   ltac:(pose proof (suffix_len _ _ P3); lia) E Hnf) as (o1 & E1 & W1 & L1 & S1).
       exists (o0 ++ o1). split; [rewrite E1, app_assoc; reflexivity|]. split; [apply whole_app; assumption|].
-      split; [|exact S1]. intros u. rewrite B, L1, padd_padd, (counts_app_w o0 o1 A W1). reflexivity.
+      split; [|exact S1]. intros u. rewrite B, L1, padd_padd, (counts_app_w o0 o1 (whole_F _ A) (whole_F _ W1)). reflexivity.
   - contradiction.
 Qed.
 
@@ -1040,3 +1108,125 @@ Proof.
   split; [exact W1|]. split; [intros u; rewrite app_assoc; apply L1|]. intros Hd. apply S1. exact Hd.
 Qed.
 End WalkRequest.
+
+(* ------------------------------------------------------------------------------------------ *)
+(* Part E: the invariant of the connection                                                      *)
+(* ------------------------------------------------------------------------------------------ *)
+
+(* [k, p, q]: framing position of the parser; [raw]: bytes it holds unparsed; [out]: replies it has produced but not
+   yet written; [new]: bytes read but not yet fed to it.  Every gate of a segment still to come asks for nothing but
+   management replies, and either is met by the log already, or the bytes before the segment end at a record
+   boundary and the gate is met by the log completed by the pending output and by the replies owed for the
+   records still to be completed by those bytes. *)
+Definition Q (k : bool) (p q : N) (raw out log new : bytes) (sg : list (N * N * bytes)) : Prop :=
+  wholeF (log ++ out) /\
+  forall pre ge gm b post, sg = pre ++ (ge, gm, b) :: post -> b <> [] ->
+    ge = 0 /\ (gm <= snd (counts log) \/
+               (snd (WK k p q (raw ++ new ++ flat pre)) = true /\
+                gm <= snd (counts (log ++ out)) + fst (WK k p q (raw ++ new ++ flat pre)))).
+
+Lemma Q_parse k p q raw out log new sg k' p' q' raw' o : whole o ->
+  (forall u, WK k p q (raw ++ new ++ u) = padd (snd (counts o)) (WK k' p' q' (raw' ++ u))) ->
+  Q k p q raw out log new sg -> Q k' p' q' raw' (out ++ o) log [] sg.
+Proof.
+  intros Ho L [HW HG]. apply whole_F in Ho. split; [rewrite app_assoc; apply wholeF_app; assumption|].
+  intros pre ge gm b post E Hb. destruct (HG pre ge gm b post E Hb) as [G0 [G|[G1 G2]]].
+  - split; [exact G0|left; exact G].
+  - split; [exact G0|right]. rewrite L in G1, G2. cbn [app]. unfold padd in G1, G2. cbn [fst snd] in G1, G2.
+    split; [exact G1|]. rewrite app_assoc, (counts_app_w _ o HW Ho). lia.
+Qed.
+
+Lemma Q_flush k p q raw out log new sg fl out' : out = fl ++ out' ->
+  Q k p q raw out log new sg -> Q k p q raw out' (log ++ fl) new sg.
+Proof.
+  intros -> [HW HG]. split; [rewrite <- app_assoc; exact HW|].
+  intros pre ge gm b post E Hb. destruct (HG pre ge gm b post E Hb) as [G0 [G|[G1 G2]]].
+  - split; [exact G0|left]. pose proof (counts_mono_any log fl). lia.
+  - split; [exact G0|right]. rewrite <- app_assoc. split; assumption.
+Qed.
+
+Lemma Q_skip k p q raw out log new E s : flat E = [] -> Q k p q raw out log new (E ++ s) -> Q k p q raw out log new s.
+Proof.
+  intros HF [HW HG]. split; [exact HW|]. intros pre ge gm b post Es Hb.
+  specialize (HG (E ++ pre) ge gm b post). rewrite flat_map_app, HF in HG. cbn [app] in HG. apply HG; [|exact Hb].
+  rewrite Es, app_assoc. reflexivity.
+Qed.
+
+(* a delivery: the gate of the segment read from was met when it was read *)
+Lemma Q_read k p q raw out log E ge gm bb rest n : flat E = [] -> bb <> [] -> gm <= snd (counts log) ->
+  Q k p q raw out log [] (E ++ (ge, gm, bb) :: rest) ->
+  Q k p q raw out log (take n bb) ((ge, gm, drop n bb) :: rest).
+Proof.
+  intros HF Hbb Hm [HW HG]. split; [exact HW|]. intros pre ge' gm' b' post Es Hb'. destruct pre as [|s0 pre2].
+  - cbn [app] in Es. injection Es as <- <- _ _. destruct (HG E ge gm bb rest eq_refl Hbb) as [G0 _].
+    split; [exact G0|left; exact Hm].
+  - cbn [app] in Es. injection Es as <- Erest.
+    specialize (HG (E ++ (ge, gm, bb) :: pre2) ge' gm' b' post).
+    rewrite flat_map_app, HF in HG. cbn [app flat_map snd] in HG.
+    cbn [flat_map snd]. rewrite (app_assoc (take n bb)), take_drop. apply HG; [|exact Hb'].
+    rewrite Erest, <- app_assoc. reflexivity.
+Qed.
+
+(* a block with nothing pending and nothing owed for the bytes held is impossible *)
+Lemma Q_block k p q raw log E ge gm bb rest : flat E = [] -> bb <> [] -> fst (WK k p q raw) = 0 ->
+  Q k p q raw [] log [] (E ++ (ge, gm, bb) :: rest) -> gate_met (counts log) ge gm.
+Proof.
+  intros HF Hbb H0 [_ HG]. destruct (HG E ge gm bb rest eq_refl Hbb) as [G0 G]. rewrite HF, !app_nil_r in G.
+  unfold gate_met. split; [lia|]. destruct G as [G|[_ G]]; lia.
+Qed.
+
+(* a block strictly inside a record (the bytes held do not complete it) is impossible: the segment was opened *)
+Lemma Q_block_mid k p q raw out log E ge gm bb rest : flat E = [] -> bb <> [] -> snd (WK k p q raw) = false ->
+  Q k p q raw out log [] (E ++ (ge, gm, bb) :: rest) -> gate_met (counts log) ge gm.
+Proof.
+  intros HF Hbb H0 [_ HG]. destruct (HG E ge gm bb rest eq_refl Hbb) as [G0 G]. rewrite HF, !app_nil_r in G.
+  unfold gate_met. split; [lia|]. destruct G as [G|[G _]]; [lia|]. rewrite H0 in G. discriminate G.
+Qed.
+
+(* complete records written to the log by someone else (the handler's output, the epilogue) *)
+Lemma Q_log k p q raw out log new sg x : wholeF log -> wholeF out -> wholeF x ->
+  Q k p q raw out log new sg -> Q k p q raw out (log ++ x) new sg.
+Proof.
+  intros Hl Ho Hx [HW HG]. split; [apply wholeF_app; [apply wholeF_app; assumption|exact Ho]|].
+  intros pre ge gm b post E Hb. destruct (HG pre ge gm b post E Hb) as [G0 [G|[G1 G2]]].
+  - split; [exact G0|left]. pose proof (counts_mono_any log x). lia.
+  - split; [exact G0|right]. split; [exact G1|].
+    rewrite (counts_app_w _ out (wholeF_app _ _ Hl Hx) Ho), (counts_app_w log x Hl Hx).
+    rewrite (counts_app_w log out Hl Ho) in G2. lia.
+Qed.
+
+Lemma Q_pos k p q k' p' q' raw out log new sg : (forall w, WK k p q w = WK k' p' q' w) ->
+  Q k p q raw out log new sg -> Q k' p' q' raw out log new sg.
+Proof.
+  intros H [HW HG]. split; [exact HW|]. intros pre ge gm b post E Hb. rewrite <- H. apply (HG pre ge gm b post E Hb).
+Qed.
+
+Lemma Q_world k p q raw out log new sg : Q k p q raw out log new sg -> wholeF (log ++ out).
+Proof. intros [H _]. exact H. Qed.
+
+(* the peer of the theorem, at the start *)
+Lemma peer_segs_Q : forall sg done, peer_segs (owed_count done) sg -> Forall rcd_ok done ->
+  forall pre ge gm b post, enc_segs sg = pre ++ (ge, gm, b) :: post ->
+    ge = 0 /\ snd (WK false 0 0 (enc_rcds done ++ flat pre)) = true /\ gm <= fst (WK false 0 0 (enc_rcds done ++ flat pre)).
+Proof.
+  induction sg as [|[[ge0 gm0] rs] t IH]; intros done HP Hd pre ge gm b post E.
+  - destruct pre; discriminate E.
+  - cbn [peer_segs] in HP. destruct HP as (-> & Hgm & Hrs & HP). cbn [enc_segs map fst snd] in E.
+    destruct pre as [|s0 pre2].
+    + cbn [app] in E. injection E as <- <- _ _. cbn [flat_map]. rewrite app_nil_r.
+      pose proof (WK_rcds done [] Hd) as H. rewrite app_nil_r, WK_nil0 in H. rewrite H. cbn [padd fst snd].
+      split; [reflexivity|]. split; [reflexivity|lia].
+    + cbn [app] in E. injection E as <- E. cbn [flat_map snd].
+      assert (HP' : peer_segs (owed_count (done ++ rs)) t).
+      { replace (owed_count (done ++ rs)) with (owed_count done + owed_count rs); [exact HP|].
+        unfold owed_count. rewrite filter_app, len_app. reflexivity. }
+      specialize (IH (done ++ rs) HP' ltac:(apply Forall_app; split; assumption) pre2 ge gm b post E).
+      rewrite enc_rcds_app, <- app_assoc in IH. exact IH.
+Qed.
+
+Lemma Q_init sg : peer_segs 0 sg -> Q false 0 0 [] [] [] [] (enc_segs sg).
+Proof.
+  intros HP. split; [apply wholeF_nil|]. intros pre ge gm b post E Hb.
+  destruct (peer_segs_Q sg [] HP ltac:(constructor) pre ge gm b post E) as (G0 & G1 & G2).
+  cbn [enc_rcds flat_map app] in G1, G2. split; [exact G0|right]. cbn [app]. split; [exact G1|]. rewrite counts_nil. cbn [snd]. lia.
+Qed.
